@@ -3,7 +3,9 @@
 import re
 d='/verif/harness/C33/'
 s=open(d+'iceberg.go').read()
-q=s
+q=re.sub(r'// BEGIN iceberg-only\n(.*\n)*?// END iceberg-only\n', '', s)
+for imp in ('\t"encoding/json"\n', '\t"io"\n', '\t"github.com/KafScale/platform/pkg/lfs"\n'):
+    q=q.replace(imp,'')
 q=q.replace('github.com/KafScale/platform/addons/processors/iceberg-processor','github.com/kafscale/platform/addons/processors/sql-processor')
 q=q.replace('\t"github.com/prometheus/client_golang/prometheus"\n','')
 q=q.replace('C33 (Iceberg processor)','C33 (SQL processor)')
